@@ -5,7 +5,7 @@ from vlib import core
 from props import poolcommon as pc
 
 MANIFEST = dict(
-    text="Theorems (all histories of worker messages from any pid incl. stale/duplicate, exits, supervision passes, scans, clock, put failures, user calls): an Apply job outcome, once observable, is the same in every extension (single assignment); success+error callbacks fire at most once and exactly once iff resolved; WorkerLostError names this job and its marker status, TimeLimitExceeded carries this job's own limit; resolved+accepted jobs have left the cache so late/duplicate messages are ignored; a result touches only its own job. Completion: proved for the closed composition client/queues/workers/parent in which nothing fails (Model/PoolSys.v: every schedule is at most 6n steps, never stuck before the end, and ends with every job resolved once with its own result); with failures, resolution is by the per-cause theorems (result, put failure, lost worker after its grace period, hard limit, terminate_job) and completion of arbitrary mixed schedules is validated on implementation traces only.",
+    text="Theorems (all histories of worker messages from any pid incl. stale/duplicate, exits, supervision passes, scans, clock, put failures, user calls): an Apply job outcome, once observable, is the same in every extension (single assignment); success+error callbacks fire at most once and exactly once iff resolved; WorkerLostError names this job and its marker status, TimeLimitExceeded carries this job's own limit; resolved+accepted jobs have left the cache so late/duplicate messages are ignored; a result touches only its own job. Completion: proved for the closed composition client/queues/workers/parent in which nothing fails (Model/PoolSys.v: every schedule is at most 6n steps, never stuck before the end, and ends with every job resolved once with its own result); with failures, resolution is by the per-cause theorems (result, put failure, lost worker after its grace period, hard limit, terminate_job) and completion of arbitrary mixed schedules is validated on implementation traces only. Closed system WITH crashes (Model/PoolCrash.v, every schedule in which a pass runs after the messages of the dead worker were drained; pools without restart limit): every resolved job has its own result or the loss of its own worker, and from every reachable state an end with every job resolved is reachable (C01_crash_*).",
     note='Trusted: Coq kernel; hand-written model Model/Pool.v validated on every run against the real billiard.pool parent-side code (harness/pool_driver.py: fake processes, fake clock, recorded signals); event-level atomicity; worker side and OS not modelled here (C03 covers the worker loop). Partial: liveness/completion and map/imap part-level exactly-once are only checked by correspondence and monitors; races inside one handler (beyond the repaired _set race) are outside the grain.',
     technique='Coq proof (invariants by induction over all event histories of an executable pool model) + differential correspondence against the real parent-side code',
     ref='5.1',
@@ -15,12 +15,14 @@ FOCUS = {'ready': 14, 'ack': 12, 'scan': 6, 'exit': 5, 'stale_ready': 1.5, 'stal
 
 
 def run(res):
-    res.proof_step('Props/C01.v', extra_targets=['Model/Pool.vo'], kernels_needed=['G_pool_shape', 'G_pool_pins'])
+    res.proof_step('Props/C01.v', extra_targets=['Model/Pool.vo', 'Model/PoolCrash.vo'], kernels_needed=['G_pool_shape', 'G_pool_pins'])
     n = 150 if res.tier == 'quick' else 6000
     if res.broken:
         n = max(n, 1500)      # failing-input search on the implementation
     pc.pool_check(res, 'C01', n, focus=FOCUS)
     pc.closed_check(res, 'C01', 120 if res.tier == 'quick' else 2000)
+    # the closed system with crashes (Model/PoolCrash.v), schedules without the racy pass of the recorded C04 finding
+    pc.crash_closed_check(res, 'C01', 40 if res.tier == 'quick' else 800, allow_early=False)
     set_race_probe(res)
     pc.real_scenarios(res, 'C01', [dict(kind='closed_system', n=2, jobs=12), dict(kind='closed_system', n=3, jobs=7, putlocks=False)] if res.tier == 'quick' else [dict(kind='closed_system', n=n, jobs=j, putlocks=pl) for n in (1, 2, 4) for j in (0, 1, 9, 40) for pl in (True, False)])
     res.assumptions += pc_assumptions()
